@@ -77,7 +77,8 @@ func ShareWithConfig[T any](config ShareConfig[T]) func(Observable[T]) Observabl
 		var subject Subject[T]
 		var sourceSubscription Subscription // subscription between the source and the subject
 
-		refCount := 0 // not an atomic counter, because it is protected by mutex
+		// Number of subscribers of the current subject. Not an atomic counter, because it is protected by mutex.
+		refCount := 0
 
 		var hasBeenResetOnError int32      // atomic.Bool is not available in Go 1.18
 		var hasBeenResetOnCompletion int32 // atomic.Bool is not available in Go 1.18
@@ -105,6 +106,9 @@ func ShareWithConfig[T any](config ShareConfig[T]) func(Observable[T]) Observabl
 
 			if currentSubject == subject {
 				subject = nil
+				// The next subject starts without subscribers: those of this one may still be leaving
+				// when it is created, and they do not count for it.
+				refCount = 0
 			}
 		}
 
@@ -172,10 +176,13 @@ func ShareWithConfig[T any](config ShareConfig[T]) func(Observable[T]) Observabl
 
 				mu.Lock()
 
-				refCount--
-				if config.ResetOnRefCountZero {
-					if refCount == 0 && atomic.LoadInt32(&hasBeenResetOnError) == 0 && atomic.LoadInt32(&hasBeenResetOnCompletion) == 0 {
-						reset(currentSubject, currentSourceSubscription)
+				// A subscriber of a subject that has been reset meanwhile is not counted anymore.
+				if currentSubject == subject {
+					refCount--
+					if config.ResetOnRefCountZero {
+						if refCount == 0 && atomic.LoadInt32(&hasBeenResetOnError) == 0 && atomic.LoadInt32(&hasBeenResetOnCompletion) == 0 {
+							reset(currentSubject, currentSourceSubscription)
+						}
 					}
 				}
 
